@@ -38,7 +38,19 @@ def main():
         shutil.copy(os.path.join(src, "demo.py"), os.path.join(wt, "demo.py"))
         rc, out = sh("/venv/bin/python demo.py", cwd=wt, env=env, timeout=600)
         res["demo_clean_rc"] = rc
-        rc, out = sh("git apply %s" % os.path.join(os.path.abspath(src), "patch.diff"), cwd=wt)
+        patch = os.path.join(os.path.abspath(src), "patch.diff")
+        rc, out = sh("git apply %s" % patch, cwd=wt)
+        back = 0
+        while rc != 0 and back < 20:
+            # the tree moved on since the change was seeded (later fix: commits touch the same lines):
+            # run against the newest ancestor commit the patch applies to
+            back += 1
+            sh("git checkout -q -f --detach HEAD~1", cwd=wt)
+            shutil.copy(os.path.join(src, "demo.py"), os.path.join(wt, "demo.py"))
+            rc, out = sh("git apply %s" % patch, cwd=wt)
+        if back:
+            res["base_commit_used"] = sh("git rev-parse --short HEAD", cwd=wt)[1].strip()
+            res["commits_behind_head"] = back
         res["apply_rc"] = rc
         if rc != 0:
             res["apply_out"] = out[-500:]
@@ -50,6 +62,8 @@ def main():
             res["suite_rc"] = rc
             res["suite_tail"] = out[-300:]
         os.unlink(os.path.join(wt, "demo.py"))
+        if res["apply_rc"] != 0:
+            raise SystemExit("patch does not apply to the current tree: %s" % res.get("apply_out"))
         t0 = time.time()
         rc, out = sh("./check %s --tier %s" % (prop, tier), cwd=VERIF,
                      env=dict(os.environ, VERIF_REPO=wt, VERIF_EVIDENCE_DIR="/tmp/seedtest-evidence-%d" % os.getpid()),
